@@ -35,6 +35,41 @@ CHECKS = {
     note="The consumer's own error value is a unique token per callback position recovered through Display.",
     technique="TLC model checking (MC_Protocol) + model-generated behaviours replayed on the real parser + TLC trace validation (ParserTrace.tla ShapeOK)",
     design="5 C14"),
+ "C05": dict(
+    text="Loader.tla gives the loader as one step per consumed instruction (error table, section placement from the hand-transcribed SpecFacts!LoaderClass) AND a declarative, positional definition of well-bracketedness following the sentences of C05; MC_Loader checks them equivalent (accept iff well-bracketed, error of the FIRST offending instruction, post-conditions) on every class sequence up to length 5 (6). Every sequence is replayed on a real Loader both directly (per-instruction outcome and index) and through load_words; every one of the 787 opcodes is additionally fed in the three contexts (module level / function / block); random loadable and faulty modules are added. LoaderTrace validates outcome, error variant, index and the loaded module section by section.",
+    note="Vendor opcodes and context-dependent ones (OpExtInst, OpUntypedVariableKHR) are 'don't care' (the property excludes them): the specification then admits each treatment. Error variants are observed through the Debug name of the boxed loader error.",
+    technique="TLC model checking (MC_Loader: operational vs declarative bracket grammar) + replay of all model sequences on the real Loader + TLC trace validation (LoaderTrace.tla)",
+    design="5 C05"),
+ "C01": dict(
+    text="For every binary the real loader accepts in the C05 corpus (all model sequences, the 787x3 opcode sweep, random layout-ordered and shuffled modules with any mix of opcodes) LoaderTrace checks that assemble(load(B)) is the header with the input's version and bound followed by exactly Assembler!EncodeInsts(Module!AllInsts(m)) for a module m that equals Loader!Load of the input section by section, that layout-ordered inputs come back word-identical from the first instruction on, and that loading the output again gives an equal module. MC_Loader proves at the design level that Load files every instruction exactly once with relative order preserved (Preserve, Identity).",
+    note="Inputs are zero-padded after string terminators so re-encoding must be word-identical. The two exclusions of the property are guards of the specification.",
+    technique="TLC model checking (MC_Loader Preserve/Identity) + TLC trace validation of load/assemble/reload round trips (LoaderTrace.tla RoundTripOK)",
+    design="5 C01"),
+ "C15": dict(
+    text="Module.tla defines GlobalInsts, FnInsts, AllInsts and AssembleModule; ModuleTrace validates the six traversals and assemble() of real dr::Module values of every shape: all 32 present/absent combinations of header, memory model, def, end, label; exactly-one-nonempty / exactly-one-empty section cases; random shapes; at thorough every combination of section sizes 0..2 over the ten vector sections (3^10). Mutable traversals are shown to reach the same objects by marking every instruction they yield.",
+    note="Pure algebraic identity; there is no separate bounded model, TLC's states are those of the trace specification.",
+    technique="TLC trace validation (ModuleTrace.tla) over an exhaustive small-scope enumeration of module values",
+    design="5 C15"),
+ "C12": dict(
+    text="Builder.tla states when each kind of call must fail, where it files its instruction and what the selection is afterwards; MC_Builder checks SelectionValid, ErrLeavesModule, id monotonicity on all call sequences within 2 functions x 1-2 blocks x 1-2 instructions, and emits a shortest history per abstract situation x call. Sampled (quick) / all (thorough) histories are mapped to concrete methods (every terminator, a dozen block instructions, all module-level methods, selections with in- and out-of-range indices, all four insert points) and replayed; random histories over ALL ~1150 callable methods are added. BuilderTrace validates result, selection and the whole module after every call; panics are data.",
+    note="Which error variant a failing call returns is unconstrained. Insertion offsets stay within the selected block, as the property says.",
+    technique="TLC model checking (MC_Builder) + model-generated histories replayed on the real Builder + TLC trace validation (BuilderTrace.tla)",
+    design="5 C12"),
+ "C13": dict(
+    text="BuilderTrace tracks the set of values the hidden id counter may have (a failing call may burn one id) and checks: fresh ids are the counter value, strictly increasing, never repeated; new()/default() start at 1, new_from_module at the bound; module() writes a bound equal to the counter and above every allocated id; an implicit type request returns the first earlier declaration with the same opcode and operands and adds nothing, otherwise appends exactly one declaration with a fresh id; explicit requests always append. Driven by the MC_Builder histories (type keys x implicit/explicit, constants, failing calls, three constructors), by every generated type method, and by random histories.",
+    note="'same opcode and operands' is decided on flattened operand words.",
+    technique="TLC model checking (MC_Builder: BoundAbove, IdsDistinct, NoDuplicateTypes, FreshIncreasing) + TLC trace validation (BuilderTrace.tla id bits)",
+    design="5 C13"),
+ "C06": dict(
+    text="harness/gen_builder.py regenerates, from the CURRENT Builder sources, one call per public method (1158 callable of 1172 pub fn; an unparseable signature is a tool error) with pairwise distinct, grammar-conforming arguments. For every method BuilderTrace checks: opcode = pinned method table, operand words in argument order, result type / result id, the instruction conforms to its grammar (Parser!ParseInst of its encoding), it is filed where SpecFacts says, and - after completing the history - assemble-then-load returns a module equal to the built one section by section with the version set and a bound above every id. Random complete histories over all methods are validated the same way.",
+    note="Known finding (recorded, not patched): type_struct_continued_intel(_id) gives OpTypeStructContinuedINTEL a result id. begin_block_no_label and terminators inserted before the end make a history incomplete (judged by C12 only).",
+    technique="TLC trace validation (BuilderTrace.tla content / round-trip bits) over one generated call per public Builder method + random complete histories",
+    design="5 C06"),
+ "C16": dict(
+    text="Exhaustive: all 12 predicates of grammar::reflect on all 787 declared opcodes are validated by PredTrace against the class lists of SpecFacts.tla (hand-transcribed from the SPIR-V specification; must / don't-care / must-not), the union laws of the derived predicates and pairwise disjointness of the base classes; PredTrace!Covered proves every opcode of the grammar was evaluated. The Builder clause is checked by calling every block-level and terminator method once (BuilderTrace bit 16: the block selection after the call) and by comparing the observed set of block-ending opcodes with the terminator predicate's set.",
+    note="Vendor OpType*/constant opcodes and OpModuleProcessed (for the non-location debug predicate) are don't-care.",
+    technique="TLC trace validation (PredTrace.tla, exhaustive over 787 x 12) + BuilderTrace.tla over every generated block/terminator method",
+    design="5 C16"),
 }
 
 def main():
